@@ -37,7 +37,7 @@ def prf(rnd, pool):
 
 
 def env(rnd):
-    uv = rnd.choice([{"kind": "ok", "pres": True, "verif": True, "err": 0}] * 6 +
+    uv = rnd.choice([{"kind": "ok", "pres": True, "verif": True, "err": 0}] * 6 + [{"kind": "asked", "pres": True, "verif": False, "err": 0}] +
                     [{"kind": "ok", "pres": True, "verif": False, "err": 0}, {"kind": "ok", "pres": False, "verif": True, "err": 0},
                      {"kind": "ok", "pres": False, "verif": False, "err": 0}, {"kind": "err", "pres": False, "verif": False, "err": rnd.choice([39, 47, 60])}])
     faults = [rnd.choice(STATUSES) if rnd.random() < 0.06 else 0 for _ in range(3)]
